@@ -153,4 +153,28 @@ def outcome (k : SolverKind) (c : SolverCfg) (_r : Route) : Except CfgErr Unit :
 def decimalPlaces (floorLog10 : Int) (maxDecimals : Nat) : Int :=
   max 0 (min (-floorLog10 + 1) (maxDecimals : Int))
 
+/-- `utils.logging.verbosity_to_loguru_level(verbose)`: `TypeError` for a non-integer, `ValueError` outside 0..4, else the
+    level name (`isInt` = `isinstance(verbose, int)`) -/
+def loguruLevel (isInt : Bool) (v : Int) : Except CfgErr String :=
+  if !isInt then .error .typeError
+  else if v < 0 ∨ v > 4 then .error .valueError
+  else .ok (if v = 0 then "ERROR" else if v = 1 then "WARNING" else if v = 2 then "INFO" else if v = 3 then "DEBUG" else "TRACE")
+
+/-- the string branch of `Solver.set_verbosity`: upper-case the name (ASCII names), look it up, `ValueError` if unknown -/
+def verbosityOfName (s : String) : Except CfgErr Int :=
+  let u := s.toUpper
+  if u = "ERROR" then .ok 0 else if u = "WARNING" then .ok 1 else if u = "INFO" then .ok 2
+  else if u = "DEBUG" then .ok 3 else if u = "TRACE" then .ok 4 else .error .valueError
+
+/-- `Solver.set_verbosity(level)`: the integer level stored in `solver.verbose` and the loguru level installed -/
+def setVerbosity (level : String ⊕ Int) : Except CfgErr (Int × String) :=
+  match level with
+  | .inl name => do
+      let v ← verbosityOfName name
+      let l ← loguruLevel true v
+      pure (v, l)
+  | .inr v => do
+      let l ← loguruLevel true v
+      pure (v, l)
+
 end MdpaxV
